@@ -24,7 +24,18 @@ fn main() {
         cfg.max_frames = 2;
         cfg.attrs = i % 2 == 0;
         cfg.fmt = Some([Fmt::Indexed, Fmt::Rgba, Fmt::Gray][(i % 3) as usize]);
-        let (sp, pp) = gen::gen_sprite(&mut rng, &cfg);
+        // Miri interprets ~10^4 times slower than native code: keep the sprite tiny in every respect
+        // (tile_image converts the whole tileset on every call, so the tile count matters quadratically)
+        let (sp, pp) = loop {
+            let (sp, pp) = gen::gen_sprite(&mut rng, &cfg);
+            let small = sp.tilesets.iter().all(|t| t.count <= 4 && t.tw as u32 * t.th as u32 <= 16)
+                && sp.tags.len() + sp.slices.len() + sp.ext_files.len() <= 12
+                && sp.layers.iter().all(|l| l.name.len() <= 40)
+                && sp.palette.as_ref().map_or(true, |p| p.len() <= 40);
+            if small {
+                break (sp, pp);
+            }
+        };
         let mut v = Variation::none();
         v.default_storage = Storage::Stored(64);
         let bytes = encode(&compile_with(&sp, &mut rng, &v, &pp)).0;
